@@ -228,6 +228,58 @@ pub fn run(engine: &str, prop: &str, path: &str, v: &Value) -> i32 {
                 r.ok().map(|o| format!("the query returned {}", o.describe()))
             }))
         }
+        "dynamic_fault" => {
+            use crate::choicesat::{replay, ExploreCfg};
+            use crate::dynamic::{history_str, run_history, DynKind, Op, StepObs};
+            let kind = DynKind::from_name(case["solver"].as_str().unwrap()).expect("unknown solver");
+            let ops: Vec<Op> = case["history"].as_array().unwrap().iter().map(Op::from_json).collect();
+            let choices: Vec<usize> = case["choices"].as_array().unwrap().iter().map(|x| x.as_u64().unwrap() as usize).collect();
+            println!("case: {} history [{}], the last recorded SAT call answers Unknown (choices {:?})", kind.name(), history_str(&ops), choices);
+            verdict(prop, path, twice(&|| {
+                let cfg = ExploreCfg { faults: true, cap_alts: 16, ..ExploreCfg::default() };
+                let (r, calls, div) = replay(&cfg, &choices, &mut |f| run_history(kind, &ops, f));
+                if let Some(d) = div {
+                    eprintln!("MACHINERY-ERROR: {}", d);
+                    std::process::exit(2);
+                }
+                if !calls.iter().any(|c| c.fault) {
+                    println!("  the fault position was not reached");
+                    return None;
+                }
+                match r {
+                    Ok(obs) => {
+                        println!("  observations {:?}", obs.iter().map(|o| o.describe()).collect::<Vec<_>>());
+                        if obs.iter().any(|o| matches!(o, StepObs::Panic(_))) {
+                            None
+                        } else {
+                            Some("no step aborted although a SAT call answered Unknown".into())
+                        }
+                    }
+                    Err(_) => None,
+                }
+            }))
+        }
+        "external_dynamic" => {
+            use crate::dynamic::{history_str, judge_history, run_history, DynKind, Op};
+            let kind = DynKind::from_name(case["solver"].as_str().unwrap()).expect("unknown solver");
+            let ops: Vec<Op> = case["history"].as_array().unwrap().iter().map(Op::from_json).collect();
+            println!("case: {} history [{}] through the external backend", kind.name(), history_str(&ops));
+            verdict(prop, path, twice(&|| {
+                let dir = crate::checks::c16::scratch_dir("replay_extdyn");
+                let log = dir.join("log.txt");
+                let _ = std::fs::remove_file(&log);
+                let obs = run_history(kind, &ops, crate::checks::c16::external_factory(vec![format!("log={}", log.display())]));
+                let text = std::fs::read_to_string(&log).unwrap_or_default();
+                for l in text.lines() {
+                    if let Ok(v) = serde_json::from_str::<Value>(l) {
+                        if v["problems"].as_array().map(|a| !a.is_empty()).unwrap_or(false) {
+                            return Some(format!("ill-formed instance at SAT call {}: {}", v["call"], v["problems"]));
+                        }
+                    }
+                }
+                judge_history(kind, &ops, &obs).map(|d| d.message)
+            }))
+        }
         "writer" => {
             println!("case: writer checks are re-run as a whole (cheap): ./check C14");
             let code = crate::checks::c14::run(crate::report::Tier::Quick);
